@@ -33,6 +33,9 @@ def leaf_content(op, out):
         return ("res", kind, f[3], int(f[4]), _b(f[6])), o[-1]
     if f[0] == "kv" and len(f) == 3:
         return ("kv", _b(f[1]), _b(f[2])), o[-1]
+    if f[0] == "sw" and len(f) == 5:
+        # length sweep: (kind, seed, len, mutated position) expands to pairwise different (addr, cidx, encoded) triples
+        return ("sw", f[1], int(f[2]), int(f[3]), f[4]), o[-1]
     if f[0] == "boxkv" and len(f) == 4 and len(o) == 2:
         return ("kv", _b(o[0]), _b(f[3])), o[-1]          # key as built by the real MakeBoxKey
     return None
@@ -45,8 +48,11 @@ def is_kv_shift(c1, c2):
 def describe(c):
     if c[0] == "acct":
         return "account %s… record %s" % (c[1][:8], c[2][:24])
+    if c[0] == "sw":
+        return "%s entry with a %d-byte encoding (sweep seed %d), %s" % (c[1], c[3], c[2],
+                                                                         "unmodified" if c[4] == "-" else "byte %s of the encoding changed" % c[4])
     if c[0] == "res":
-        return "%s resource %d of %s… record %s" % (c[1], c[3], c[2][:8], c[4][:24])
+        return "%s resource %d of %s… record (%d bytes) %s…%s" % (c[1], c[3], c[2][:8], len(c[4]) // 2, c[4][:16], c[4][-16:])
     key = bytes.fromhex(c[1])
     if key[:3] == b"bx:" and len(key) >= 11:
         return "box %r of app %d = %r" % (key[11:], int.from_bytes(key[3:11], "big"), bytes.fromhex(c[2]))
@@ -116,8 +122,29 @@ def label_monitor(ctx, ops, impl):
 def ledger_monitor(ctx, ops, impl):
     """ops: ledger <name> <value>; impl: round=.. root=.. totals=.. label=.. boxes=key:value,.."""
     seen, shifts, hard = {}, 0, 0
+    app_seen, app_n = {}, 0
     for op, out in zip(ops, impl):
         kv = dict(x.split("=", 1) for x in out.split() if "=" in x)
+        if op.startswith("appstate "):
+            # one-application states through the real catchup accessor: different ops = different states
+            f = op.split()
+            if "label" not in kv or kv.get("owner") != f[2]:
+                ctx.tie_failures.append("ledger harness could not restore the application state of `%s`: %s" % (op[:120], out[:200]))
+                continue
+            app_n += 1
+            prev = app_seen.setdefault(kv["label"], (op, kv))
+            if prev[0] != op:
+                hard += 1
+                if hard <= 3:
+                    pf = prev[0].split()
+                    diff = ("global-state value owner=%s vs %s" % (pf[2], f[2]) if pf[2] != f[2] else
+                            "GlobalStateSchema.NumByteSlice %s vs %s" % (pf[3], f[3]) if pf[3] != f[3] else "UpdateRound %s vs %s" % (pf[4], f[4]))
+                    ctx.violation("two states that differ in one application (%s; application row of %s encoded bytes) restore through the real catchup "
+                                  "accessor to the same balances trie root %s and the same catchpoint label %s"
+                                  % (diff, kv.get("size"), kv.get("root"), kv["label"]),
+                                  {"kind": "state-label-collision", "ops": [prev[0], op], "label": kv["label"], "harness": HARNESS_LEDGER},
+                                  found_input=True)
+            continue
         if "label" not in kv or "boxes" not in kv:
             ctx.tie_failures.append("ledger harness could not build/restore the ledger for `%s`: %s" % (op, out[:200]))
             continue
@@ -142,6 +169,7 @@ def ledger_monitor(ctx, ops, impl):
                               {"kind": "ledger-label-collision", "ops": [prev[1], op], "harness": HARNESS_LEDGER}, found_input=True)
     d = ctx.cov["distribution"]
     d["ledger:states"] = len(ops)
+    d["ledger:application-states"] = app_n
     d["ledger:distinct-labels"] = len(seen)
     d["ledger:kv-boundary-shift-collisions"] = shifts
     d["ledger:other-collisions"] = hard
@@ -173,14 +201,18 @@ def run(ctx, replay_ops=None):
     ctx.cov["rule"] = ("leaf ops: real BaseAccountData / ResourcesData records (all shapes: holding, params, both, empty-flag) and boxes in the real "
                        "bx:‖app‖name key format, each with siblings differing in exactly one component (address, creatable index incl. byte-swapped, "
                        "one record field, same low 32 affinity bits), every box with both key/value boundary shifts, ONE pre-image presented under all four "
-                       "kinds, arbitrary-byte records; label ops: random digests/totals under the three label versions with one-bit, swapped-digest and "
-                       "changed-totals siblings; ledger ops: real ledgers differing in one box (the shift pair and equal-size controls). "
+                       "kinds, arbitrary-byte records; real application rows (program + global state) of ~0.5/1/2/4 KB with siblings differing only in the tail of "
+                       "the encoding; length sweep `sw`: EVERY encoded length 0..4200 through every builder, unmodified and with single-byte changes in the "
+                       "tail (all of the last 48 bytes around 32..4096 ± 41; all of the last 64 everywhere in thorough), the body and byte 0; label ops: random digests/totals under the three label versions with one-bit, swapped-digest and "
+                       "changed-totals siblings; ledger ops: real ledgers differing in one box (the shift pair and equal-size controls) and one-application states "
+                       "(application row 984..1064, 2048, 4096 and seeded sizes) differing in the last global value / a schema count / the update round, "
+                       "restored through the real catchup accessor. "
                        "An op is trivial when key/name and value are both empty; distinct = distinct op lines")
     leaf_ops = label_ops = ledger_ops = None
     if replay_ops is not None:
-        leaf_ops = [o for o in replay_ops if o.split()[0] in ("acct", "res", "kv", "boxkv")]
+        leaf_ops = [o for o in replay_ops if o.split()[0] in ("acct", "res", "kv", "boxkv", "sw")]
         label_ops = [o for o in replay_ops if o.split()[0] == "label"]
-        ledger_ops = [o for o in replay_ops if o.split()[0] == "ledger"]
+        ledger_ops = [o for o in replay_ops if o.split()[0] in ("ledger", "appstate")]
 
     # tie 1: leaves
     if replay_ops is None or leaf_ops:
@@ -211,6 +243,26 @@ def run(ctx, replay_ops=None):
             ops, impl = ctx.read_lines(opsf), ctx.read_lines(implf)
             ctx.account(ops)
             ledger_monitor(ctx, ops, impl)
+
+
+    _prioritise(ctx)
+
+
+def _prioritise(ctx):
+    """Number the replay files so that violations with a concrete failing pair come first (C15-<seed>-0.json …)."""
+    vs = ctx.violations
+    order = sorted(range(len(vs)), key=lambda i: (0 if vs[i]["found_input"] else 1, i))
+    if order == list(range(len(vs))):
+        return
+    paths = [v["path"] for v in vs]
+    for i in range(len(vs)):
+        os.rename(paths[i], paths[i] + ".tmp")
+    new = []
+    for k, i in enumerate(order):
+        os.rename(paths[i] + ".tmp", paths[k])
+        v = dict(vs[i]); v["path"] = paths[k]
+        new.append(v)
+    ctx.violations[:] = new
 
 
 def replay(ctx, path):
